@@ -7,8 +7,8 @@ sid, patch, demo, meta = sys.argv[1:5]
 checks = sys.argv[5:]
 dst = "/verif/seeded/" + sid
 os.makedirs(dst, exist_ok=True)
-shutil.copy(patch, dst + "/patch.diff")
-shutil.copy(demo, dst + "/demo.rs")
+(shutil.copy(patch, dst + "/patch.diff") if os.path.abspath(patch) != os.path.abspath(dst + "/patch.diff") else None)
+(shutil.copy(demo, dst + "/demo.rs") if os.path.abspath(demo) != os.path.abspath(dst + "/demo.rs") else None)
 m = json.load(open(meta))
 subprocess.run(["git", "-C", "/repo", "checkout", "--", "."], check=True)
 r = subprocess.run(["git", "-C", "/repo", "apply", dst + "/patch.diff"], capture_output=True, text=True)
@@ -34,7 +34,9 @@ try:
             det[c] = {"exit": p.returncode, "lines": [l[:300] for l in lines][:6], "first_violation": first, "wall_s": round(time.time() - t0, 1)}
 finally:
     subprocess.run(["git", "-C", "/repo", "checkout", "--", "."], check=True)
-m["detection"] = det
+prev = m.get("detection", {})
+prev.update(det)
+m["detection"] = prev
 m["confirmed_by_me"] = "demo passes on the clean tree, fails with the patch; `cargo test --workspace --no-fail-fast --offline` passes with the patch (run in a scratch worktree by /tmp/confirm_seed.sh)"
 json.dump(m, open(dst + "/meta.json", "w"), indent=1)
 print(sid, json.dumps(det)[:600])
